@@ -19,6 +19,8 @@ import re
 import vlib, asm_gen
 
 LOCAL_LABELS = ['lp', 'skip', 'zl', 'done', 'again']
+OPND = 'zopnd'
+OPND_FORMS = ['[%s]', '#%s', '(%s)+']
 IDENT = re.compile(r'[A-Za-z_][A-Za-z0-9_]*')
 PLACE = re.compile(r'\{\s*([A-Za-z_][A-Za-z0-9_]*)\s*\}')
 
@@ -69,6 +71,13 @@ def add_extras(rng, isa):
         isa.rules.append(dict(m='jr', ops=[('expr', 'x', None, ('', ''))], prod='0x7e @ (x - $)`8'))
     if rng.chance(0.5):
         isa.rules.append(dict(m='fill', ops=[], prod='0x%02x' % rng.below(256)))
+    if rng.chance(0.7):
+        # a sub-rule operand that CONTAINS an expression (wrapped forms): what is written inside it in a block body must
+        # see the block's labels and by-value locals exactly like a plain expression operand
+        isa.subs.append((OPND, [('[{a: u8}]', '0x01 @ a'), ('#{v: u8}', '0x02 @ v'), ('({a: u8})+', '0x03 @ a')]))
+        isa.rules.append(dict(m='jx', ops=[('sub', 't', OPND)], prod='0x%02x @ t' % rng.below(256), whole_bytes=True))
+        if rng.chance(0.4):
+            isa.rules.append(dict(m='mvx', ops=[('sub', 't', OPND), ('expr', 'x', 'u8', ('', ''))], prod='0x%02x @ t @ x' % rng.below(256), whole_bytes=True))
 
 
 def gen_macro(rng, prog, idx, callable_rules, global_syms):
@@ -91,6 +100,24 @@ def gen_macro(rng, prog, idx, callable_rules, global_syms):
         return n
 
     def template(o, callee_is_macro):
+        if o[0] == 'sub' and o[2] == OPND:
+            if rng.chance(0.2):
+                if OPND in sub_params and rng.chance(0.5):
+                    n = sub_params[OPND]
+                else:
+                    n = next(pnames)
+                    mac.ops.append(('sub', n, OPND))
+                    sub_params[OPND] = n
+                    mac.has_typed = True          # the expression inside is range-checked where the call stands
+                mac.features.add('opnd-param')
+                return '{%s}' % n
+            inner = template(('expr', 'a', 'u8', ('', '')), callee_is_macro)
+            mac.features.add('opnd-with-expression')
+            if IDENT.fullmatch(inner.strip()) and label and inner.strip() == label:
+                mac.features.add('opnd-local-label')
+            if inner.startswith('{t'):
+                mac.features.add('opnd-by-value')
+            return rng.choice(OPND_FORMS) % inner
         if o[0] == 'sub':
             sub = o[2]
             if rng.chance(0.25):
@@ -176,6 +203,8 @@ def extend_with_macros(rng, prog, nmac=None):
 
 
 def gen_arg(rng, prog, o, syms):
+    if o[0] == 'sub' and o[2] == OPND:
+        return rng.choice(OPND_FORMS) % gen_arg(rng, prog, ('expr', 'a', 'u8', ('', '')), syms)
     if o[0] == 'sub':
         sub = [s for s in prog.isa.subs if s[0] == o[2]][0]
         return rng.choice(sub[1])[0]
@@ -376,7 +405,7 @@ def byte_align(prog):
     """make every base instruction and data item a whole number of bytes (pad the production with leading zero bits),
     so that every position of the program is an address: misaligned block labels are a stream of their own"""
     for r in prog.isa.rules:
-        if 'macro' in r:
+        if 'macro' in r or r.get('whole_bytes'):
             continue
         n = prod_size(r)
         if n is None:
@@ -418,6 +447,21 @@ def gen_macro_case(rng, size_static=True):
     byte_align(prog)
     _, first_macro = extend_with_macros(rng, prog)
     add_macro_calls(rng, prog, first_macro)
+    # a few direct uses of the expression-carrying sub-rule operand outside macros
+    for ri, r in enumerate(prog.isa.rules[:first_macro]):
+        if r.get('whole_bytes') and rng.chance(0.3):
+            prog.items.insert(rng.range(0, len(prog.items)), ('instr', ri, [gen_arg(rng, prog, o, list(prog.names)) for o in r['ops'] if o[0] != 'reg']))
+    # global labels named like block labels: a block's own label shadows them inside the block (documented); they are
+    # declared after every argument text was chosen, so no argument names them (that shape is finding class F67)
+    shadowed = set()
+    if rng.chance(0.5):
+        used = sorted({n[1] for r in prog.isa.rules[first_macro:] for n in r['macro'].body if n[0] == 'label'})
+        for nm in used:
+            if rng.chance(0.7):
+                prog.items.insert(rng.range(0, len(prog.items)), ('label', nm))
+                prog.names.append(nm)
+                shadowed.add(nm)
+        prog.names = [it[1] for it in prog.items if it[0] in ('label', 'const')]
     base = base_isa_of(prog.isa, first_macro)
     inl = inline_program(prog, base)
     feats = set()
@@ -432,6 +476,8 @@ def gen_macro_case(rng, size_static=True):
                 for n in m.body:
                     if n[0] == 'instr' and is_macro(prog.isa, n[1]):
                         stack.append(prog.isa.rules[n[1]]['macro'])
+    if shadowed:
+        feats.add('global-named-like-block-label')
     return prog, inl, feats, maxdepth
 
 
@@ -528,6 +574,17 @@ def gen_tree(rng, nparams, pnames, fns_upto, syms, depth=0, allow_call=True):
     return ('lit', str(rng.below(50)))
 
 
+def mentions_position(n, syms):
+    if n[0] == 'sym':
+        return n[1] == '$' or n[1] in syms
+    for x in n[1:]:
+        if isinstance(x, tuple) and x and isinstance(x[0], str) and mentions_position(x, syms):
+            return True
+        if isinstance(x, list) and any(mentions_position(y, syms) for y in x if isinstance(y, tuple)):
+            return True
+    return False
+
+
 def has_call(n):
     if n[0] == 'call':
         return True
@@ -543,9 +600,23 @@ PARAM_POOL = ['pa', 'pb', 'pc', 'value', 'arg1']
 
 
 def gen_fn_case(rng):
-    """-> (text with calls, text with calls substituted, Prog of the substituted program, feature set)"""
-    prog = gen_base(rng, True)
+    """-> (text with calls, text with calls substituted, Prog of the substituted program, feature set).
+    Bodies may read the position (`$`), labels and label-dependent constants; the program may be over a cascading
+    instruction set and may contain a macro call with a forward reference, so that positions are mis-guessed in the
+    first pass in front of the call sites (feature 'macro-item': the extracted model cannot read the twin then)."""
+    cascading = rng.chance(0.4)
+    prog = gen_base(rng, not cascading)
     byte_align(prog)
+    feats0 = set(['cascading-isa']) if cascading else set()
+    if rng.chance(0.4):
+        labs = [it[1] for it in prog.items if it[0] == 'label']
+        prog.isa.rules.append(dict(m='zjp', ops=[('expr', 'x', 'u16', ('', ''))], prod='0xc3 @ x'))
+        body = 'zjp {p0}' if rng.chance(0.5) or not labs else 'zjp %s' % labs[-1]
+        prog.isa.rules.append(dict(m='zfar', ops=[('expr', 'p0', None, ('', ''))], prod='asm {\n        %s\n        zjp {p0} + 1\n    }' % body))
+        fix_cuts(prog.isa)
+        for _ in range(rng.range(1, 2)):
+            prog.items.insert(rng.range(0, max(0, len(prog.items) // 2)), ('instr', len(prog.isa.rules) - 1, [rng.choice(labs) if labs else '7']))
+        feats0.add('macro-item')
     # arguments are evaluated before the call whether or not the body reads them, so they must be total: only symbols
     # that are certainly integers (labels, constants defined by plain arithmetic)
     syms = [it[1] for it in prog.items if it[0] == 'label']
@@ -560,13 +631,26 @@ def gen_fn_case(rng):
     for i in range(rng.range(1, 4)):
         np_ = rng.range(0, 3)
         pn = rng.shuffle(list(PARAM_POOL))[:np_]
-        body = gen_tree(rng, np_, pn, list(fns), syms if rng.chance(0.5) else [], 0)
+        k = rng.below(100)
+        if k < 25:
+            # directly position dependent: `$ + n`, `label + n`, `label - $`
+            base_ = rng.choice(['$'] + syms[:]) if syms else '$'
+            other = ('param', 0, pn[0]) if np_ else ('lit', str(rng.below(4)))
+            body = ('bin', rng.choice(['+', '+', '-']), ('sym', base_), other)
+            if rng.chance(0.3) and syms:
+                body = ('bin', '+', body, ('bin', '-', ('sym', rng.choice(syms)), ('sym', '$')))
+        else:
+            bsyms = (syms + ['$', '$']) if k < 70 else []
+            body = gen_tree(rng, np_, pn, list(fns), bsyms, 0)
         fns.append(Fn('zf%d' % i, pn, body))
-    feats = set()
+    feats = set(feats0)
+    if any(mentions_position(f.body, syms) for f in fns):
+        feats.add('position-dependent-body')
 
     def call_tree(argsyms):
         fi = rng.below(len(fns))
-        return ('call', fi, [gen_tree(rng, 0, [], fns, argsyms, 2) for _ in fns[fi].params])
+        # constant arguments half of the time: the call then LOOKS independent of the layout although its body is not
+        return ('call', fi, [gen_tree(rng, 0, [], fns, argsyms if rng.chance(0.5) else [], 2) for _ in fns[fi].params])
 
     # call sites: rule productions (new rules appended), data, constants, instruction arguments
     isa_c, isa_e = prog.isa, asm_gen.Isa()
@@ -599,22 +683,22 @@ def gen_fn_case(rng):
         k = rng.below(100)
         t = call_tree(syms)
         tc, te = render(t, fns, 'call', None), render(t, fns, 'expand', None)
-        if k < 45:
+        if k < 32:
             w = rng.choice([8, 16, 32])
             insert(('data', w, ['%s`%d' % (paren(tc), w)]), ('data', w, ['%s`%d' % (paren(te), w)]))
             feats.add('call-in-data')
-        elif k < 65:
+        elif k < 45:
             n = 'kf%d' % j
             insert(('const', n, tc), ('const', n, te))
             names_extra.append(n)
             feats.add('call-in-constant')
-        elif k < 80 and any(r['m'].startswith('zr') for r in isa_c.rules):
+        elif k < 55 and any(r['m'].startswith('zr') for r in isa_c.rules):
             ri = rng.choice([i for i, r in enumerate(isa_c.rules) if r['m'].startswith('zr')])
             r = isa_c.rules[ri]
             args = [gen_arg(rng, prog, o, syms) for o in r['ops']]
             insert(('instr', ri, args), ('instr', ri, args))
         else:
-            cands = [i for i, r in enumerate(isa_c.rules) if any(o[0] == 'expr' for o in r['ops']) and not r['m'].startswith('zr')]
+            cands = [i for i, r in enumerate(isa_c.rules) if any(o[0] == 'expr' for o in r['ops']) and not r['m'].startswith('zr') and 'asm {' not in r['prod']]
             if not cands:
                 insert(('data', 8, [paren(tc) + '`8']), ('data', 8, [paren(te) + '`8']))
                 continue
